@@ -192,11 +192,11 @@ fn main() {
             // number of output positions of this entry (cost of the search grows with it)
             let n_out = inputs.iter().find_map(|x| entry.reference(x).map(|v| v.len() - entry.n_input_positions(x))).unwrap_or(0);
             if cfg.deep {
-                // logical budget of the deep configuration: 64 restarts x 10 000 nodes per target
-                // (every restart rebuilds the copy classes, so restarts dominate the cost of the
-                // many searches that dead-end within a few nodes); wide outputs: 8 positions, 32 restarts
-                opts.ars = Some(ArsBudget { restarts: if n_out > 8 { 32 } else { 64 }, nodes_per_restart: 10_000, max_changed: 48 });
+                // deep configuration: the engine's thorough budget (256 restarts x 10 000 nodes per
+                // target); entries with more than 8 output positions: 8 positions, 64 restarts (every
+                // restart rebuilds the copy classes of a circuit with hundreds of public inputs)
                 if n_out > 8 {
+                    opts.ars = Some(ArsBudget { restarts: 64, nodes_per_restart: 10_000, max_changed: 48 });
                     opts.max_positions = 8;
                 }
             } else if cfg.max_bit_len >= 13 {
@@ -316,7 +316,7 @@ fn main() {
             .iter()
             .map(|c| json!({"max_bit_len": c.max_bit_len, "nr_pow2range_cols": c.cols, "range_only_subset": c.range_only,
                 "catalogue": if c.deep { "thorough" } else { "quick" }, "inputs_per_entry": if c.deep { 25 } else if c.max_bit_len >= 13 { 3 } else { 6 },
-                "ars": if c.deep { "64 restarts x 10000 nodes (wide outputs: 8 positions, 32 restarts)" } else { "32 restarts x 2000 nodes, 6 positions" }}))
+                "ars": if c.deep { "256 restarts x 10000 nodes, <=64 positions (entries with >8 outputs: 8 positions, 64 restarts)" } else { "32 restarts x 2000 nodes, 6 positions" }}))
             .collect::<Vec<_>>()),
     );
     rep.set(
